@@ -219,6 +219,8 @@ theorem filterTail_stop (s : PSt) (h1 : peekTok s ≠ .ch (chr '/')) (h2 : peekT
   · rename_i hc; exact absurd hc h2
   · rfl
 
+theorem ok_bind {α β} (a : α) (f : α → P β) : ((Except.ok a : P α) >>= f) = f a := rfl
+
 theorem pUnary_pos (f : Nat) (s : PSt) (h : peekTok s ≠ .ch (chr '-')) :
     pUnary (f + 1) s = (pPath f s >>= pUnionRest f) := by
   simp only [pUnary, h, ↓reduceIte]
@@ -249,6 +251,7 @@ theorem pFilterPath_succ (f : Nat) (s : PSt) :
           pure (emit s .evalLocPath)
         | _ => pure s : P PSt)) := by
   simp only [pFilterPath]
+  rfl
 
 theorem pPrimary_num (f : Nat) (s : PSt) (x : SF) (h : peekTok s = .num x) :
     pPrimary (f + 1) s = .ok (emit (adv s) (.num x)) := by
@@ -263,14 +266,11 @@ theorem unary_of_primary (g : Nat) (s s1 : PSt) (hneg : peekTok s ≠ .ch (chr '
     (hpath : pPath (g + 1 + 1) s = pFilterPath (g + 1) s)
     (hprim : pPrimary g s = .ok s1) (hs : stopAt 6 (peekTok s1)) :
     pUnary (g + 1 + 1 + 1) s = .ok s1 := by
-  rw [pUnary_pos _ _ hneg, hpath, pFilterPath_succ, hprim]
-  simp only [bind, Except.bind]
+  rw [pUnary_pos _ _ hneg, hpath, pFilterPath_succ, hprim, ok_bind]
   cases g with
   | zero => simp [pPrimary] at hprim
   | succ g =>
-    rw [pPreds_stop g s1 hs.2.2.1]
-    simp only []
-    rw [filterTail_stop s1 hs.2.2.2.1 hs.2.2.2.2]
+    rw [pPreds_stop g s1 hs.2.2.1, ok_bind, filterTail_stop s1 hs.2.2.2.1 hs.2.2.2.2, ok_bind]
     exact pUnionRest_stop _ _ hs.2.1
 
 theorem U_num (x : SF) : U (.num x) := by
@@ -288,5 +288,153 @@ theorem U_lit (l : List Rune) : U (.lit l) := by
   rw [done_lit] at hd ⊢
   obtain ⟨g', rfl⟩ : ∃ g', g = g' + 1 + 1 + 1 + 1 := ⟨g - 4, by simp [B, PE.toks] at hg; omega⟩
   exact unary_of_primary (g' + 1) s _ (by rw [hp]; simp) (pPath_lit _ _ l hp) (pPrimary_lit _ _ l hp) (by rw [hd]; exact hs)
+
+
+theorem U_neg (e : PE) (he : U e) : U (.neg e) := by
+  intro g s rest hg ht hs hst
+  have hp : peekTok s = .ch (chr '-') := by rw [peek_tk, ht]; rfl
+  cases g with
+  | zero => simp [B, PE.toks] at hg
+  | succ g =>
+    rw [pUnary_neg _ _ hp]
+    have h1 := he g (adv s) rest (by simp [B, PE.toks] at hg ⊢; omega)
+      (by rw [tk_adv, ht]; simp [PE.toks]) hs hst
+    rw [h1, ok_bind, done_neg]
+    rfl
+
+theorem stopAt_rparen (lvl : Nat) : stopAt lvl (.ch (chr ')')) := by
+  refine ⟨fun j _ => ?_, by simp [chr], by simp [chr], by simp [chr], by simp⟩
+  rcases j with _ | _ | _ | _ | _ | _ | j <;> simp [binOpAt, chr]
+
+theorem pPrimary_paren (f : Nat) (s : PSt) (h : peekTok s = .ch (chr '(')) (h2 : peekTok (adv s) ≠ .ch (chr ')')) :
+    pPrimary (f + 1) s = (pLevel f 0 (adv s) >>= fun s => expectCh ')' s) := by
+  simp only [pPrimary, h, ↓reduceIte, h2]
+
+theorem U_paren (e : PE) (he : T e 0) : U (.paren e) := by
+  intro g s rest hg ht hs hst
+  have hp : peekTok s = .ch (chr '(') := by rw [peek_tk, ht]; rfl
+  obtain ⟨g', rfl⟩ : ∃ g', g = g' + 1 + 1 + 1 + 1 := ⟨g - 4, by simp [B, PE.toks] at hg; omega⟩
+  have htk : tk (adv s) = e.toks ++ (.ch (chr ')') :: rest) := by rw [tk_adv, ht]; simp [PE.toks]
+  have hp2 : peekTok (adv s) ≠ .ch (chr ')') := by
+    obtain ⟨t, r, hr, hst'⟩ := toks_start e
+    rw [peek_tk, htk, hr]
+    simp only [List.cons_append, List.headD_cons]
+    rcases hst' with ⟨x, rfl⟩ | ⟨l, rfl⟩ | rfl | rfl <;> simp [chr]
+  have hin := he g' (adv s) (.ch (chr ')') :: rest) (by simp [B, PE.toks] at hg ⊢; omega) htk
+    (stopAt_rparen 0) hst
+  have hprim : pPrimary (g' + 1) s = .ok (done (.paren e) s) := by
+    rw [pPrimary_paren _ _ hp hp2, hin, ok_bind]
+    unfold expectCh
+    have : peekTok (done e (adv s)) = .ch (chr ')') := by rw [peek_done e (adv s) _ htk]; rfl
+    simp only [this, ↓reduceIte, done_paren]
+    rfl
+  have hd := peek_done (.paren e) s rest ht
+  exact unary_of_primary (g' + 1) s _ (by rw [hp]; simp [chr]) (pPath_paren _ _ hp) hprim (by rw [hd]; exact hs)
+
+theorem pLevelRest_op (g k : Nat) (s : PSt) (i : PI) (h : binOpAt k (peekTok s) = some i) :
+    pLevelRest (g + 1) k s = (pLevel g (k + 1) (adv s) >>= fun s2 => pLevelRest g k (emit s2 i)) := by
+  simp only [pLevelRest, h]
+
+theorem C_bin (op : BinOp) (a b : PE) (ha : C a (level op)) (hb : T b (level op + 1)) :
+    C (.bin op a b) (level op) := by
+  intro f s rest G r hG hf ht hs hst hr
+  have hk : level op ≤ 5 := by cases op <;> simp [level]
+  have hta : tk s = a.toks ++ (opTok op :: (b.toks ++ rest)) := by rw [ht]; simp [PE.toks]
+  apply ha f s (opTok op :: (b.toks ++ rest)) (B b + 2 * (5 - level op) + G + 1) r (by omega)
+    (by simp only [B, PE.toks, List.length_append, List.length_cons] at hf ⊢; omega) hta (stopAt_opTok op) hst
+  intro g hg
+  cases g with
+  | zero => omega
+  | succ g =>
+    have hpk : peekTok (done a s) = opTok op := by rw [peek_done a s _ hta]; rfl
+    rw [pLevelRest_op g _ _ (binPI op) (by rw [hpk]; exact binOpAt_opTok op)]
+    have htb : tk (adv (done a s)) = b.toks ++ rest := by rw [tk_adv, tk_done, hta]; simp
+    rw [hb g (adv (done a s)) rest (by omega) htb hs (by rw [show (adv (done a s)).strict = s.strict from rfl]; exact hst), ok_bind,
+      ← done_bin]
+    exact hr g (by omega)
+
+/-- **precedence and associativity**: every expression that carries the parentheses its shape needs parses,
+    at every level it fits, to the postfix code of its tree -/
+theorem prec_main (e : PE) :
+    (∀ lvl, lvl ≤ 6 → e.fits lvl → T e lvl) ∧ (∀ k, k ≤ 5 → e.fits k → C e k) ∧ (e.fits 6 → U e) := by
+  induction e with
+  | num x =>
+    have hl := ladder (.num x) 6 (Nat.le_refl _) (T6_of_U _ (U_num x))
+    exact ⟨fun lvl h _ => (hl (6 - lvl) lvl (by omega)).1, fun k h _ => (hl (6 - k) k (by omega)).2 (by omega), fun _ => U_num x⟩
+  | lit l =>
+    have hl := ladder (.lit l) 6 (Nat.le_refl _) (T6_of_U _ (U_lit l))
+    exact ⟨fun lvl h _ => (hl (6 - lvl) lvl (by omega)).1, fun k h _ => (hl (6 - k) k (by omega)).2 (by omega), fun _ => U_lit l⟩
+  | paren e ih =>
+    have hu : (PE.paren e).fits 6 → U (.paren e) := fun hf => U_paren e (ih.1 0 (by omega) hf)
+    refine ⟨fun lvl h hf => ?_, fun k h hf => ?_, hu⟩
+    · exact ((ladder _ 6 (Nat.le_refl _) (T6_of_U _ (hu hf))) (6 - lvl) lvl (by omega)).1
+    · exact ((ladder _ 6 (Nat.le_refl _) (T6_of_U _ (hu hf))) (6 - k) k (by omega)).2 (by omega)
+  | neg e ih =>
+    have hu : (PE.neg e).fits 6 → U (.neg e) := fun hf => U_neg e (ih.2.2 hf)
+    refine ⟨fun lvl h hf => ?_, fun k h hf => ?_, hu⟩
+    · exact ((ladder _ 6 (Nat.le_refl _) (T6_of_U _ (hu hf))) (6 - lvl) lvl (by omega)).1
+    · exact ((ladder _ 6 (Nat.le_refl _) (T6_of_U _ (hu hf))) (6 - k) k (by omega)).2 (by omega)
+  | bin op a b iha ihb =>
+    have hk : level op ≤ 5 := by cases op <;> simp [level]
+    have hc : ∀ l, (PE.bin op a b).fits l → C (.bin op a b) (level op) := fun l hf =>
+      C_bin op a b (iha.2.1 (level op) hk hf.2.1) (ihb.1 (level op + 1) (by omega) hf.2.2)
+    refine ⟨fun lvl h hf => ?_, fun k h hf => ?_, fun hf => ?_⟩
+    · have hle : lvl ≤ level op := hf.1
+      exact ((ladder _ (level op) (by omega) (T_of_C _ _ (hc lvl hf))) (level op - lvl) lvl (by omega)).1
+    · have hle : k ≤ level op := hf.1
+      by_cases he : k = level op
+      · subst he; exact hc _ hf
+      · exact ((ladder _ (level op) (by omega) (T_of_C _ _ (hc k hf))) (level op - k) k (by omega)).2 (by omega)
+    · have : 6 ≤ level op := hf.1
+      omega
+
+
+/-! ### the whole parser -/
+
+/-- the tree behind the written expression: parentheses removed -/
+inductive ET where
+  | num (x : SF) | lit (s : List Rune) | neg (e : ET) | bin (op : BinOp) (a b : ET)
+  deriving Repr, DecidableEq
+
+def PE.tree : PE → ET
+  | .num x => .num x
+  | .lit s => .lit s
+  | .paren e => e.tree
+  | .neg e => .neg e.tree
+  | .bin op a b => .bin op a.tree b.tree
+
+def ET.code : ET → List PI
+  | .num x => [.num x]
+  | .lit s => [.lit s]
+  | .neg e => e.code ++ [.negate]
+  | .bin op a b => a.code ++ b.code ++ [binPI op]
+
+theorem code_tree (e : PE) : e.code = e.tree.code := by
+  induction e with
+  | num x => rfl
+  | lit s => rfl
+  | paren e ih => simpa [PE.code, PE.tree] using ih
+  | neg e ih => simp [PE.code, PE.tree, ET.code, ih]
+  | bin op a b iha ihb => simp [PE.code, PE.tree, ET.code, iha, ihb]
+
+/-- `parseExprToks` on the tokens of a written expression (followed by the end-of-input token): the
+    program is the postfix code of the tree, then `store` -/
+theorem parseExprToks_spec (e : PE) (hf : e.fits 0) (toks : List LexedTok)
+    (ht : toks.map (·.tok) = e.toks ++ [.eof]) :
+    ∃ s', parseExprToks false toks = .ok s' ∧ s'.out.reverse = e.tree.code ++ [.store] ∧ s'.perr = none := by
+  have hT := (prec_main e).1 0 (by omega) hf
+  have hlen : toks.length = e.toks.length + 1 := by
+    have := congrArg List.length ht; simpa using this
+  have h := hT (24 * toks.length + 24) { toks := toks, strict := false } [.eof]
+    (by simp only [B]; omega) ht
+    ⟨fun j _ => by rcases j with _ | _ | _ | _ | _ | _ | j <;> simp [binOpAt], by simp, by simp, by simp, by simp⟩ rfl
+  refine ⟨emit (done e { toks := toks, strict := false }) .store, ?_, ?_, rfl⟩
+  · unfold parseExprToks
+    rw [h, ok_bind]
+    have : peekTok (done e { toks := toks, strict := false }) = .eof := by
+      rw [peek_done e { toks := toks, strict := false } [.eof] ht]; rfl
+    simp only [this, ↓reduceIte]
+    rfl
+  · simp [emit, done, code_tree]
 
 end YV.XP
